@@ -24,10 +24,14 @@ def scenarios(thorough):
         out.append(cc.mk([P(1)], use_poll=use_poll, room=40, extra_client=[["read", 30], ["read", 30], ["readall"]],
                          apps={1: {"chunks": [30, 30, 30], "write": True}},
                          adj={"outbuf_high_watermark": 50, "send_bytes": 1}, name="producer over watermark %s" % tag))
+        # the head (about 150 bytes) goes out completely, the first block only in part; then the application pauses
+        out.append(cc.mk([P(1)], use_poll=use_poll, room=200, extra_client=slow, apps={1: {"chunks": [100, "sync", 10]}},
+                         adj={"send_bytes": 1}, name="application pauses in mid-stream after a partial send %s" % tag))
         out.append(cc.mk([{"k": 1, "kind": "http10"}], use_poll=use_poll, room=0, extra_client=slow, name="http10 close-delimited slow %s" % tag,
                          apps={1: {"chunks": [10, 10], "cl": "none"}}))
     out.append(cc.mk([P(1), {"k": 2, "kind": "expect"}], lookahead=1, split="joinheads", waits=(2,), room=0, read_before_await=True, name="expect waits, slow"))
     out.append(cc.mk([P(1), P(2), P(3)], lookahead=0, workers=1, split="each", name="3plain each la=0"))
+    out.append(cc.mk([P(1), P(2), {"k": 3, "kind": "close"}], lookahead=0, workers=2, split="each", name="2plain then close, each la=0 (keep-alive connection, several wake-ups)"))
     out.append(cc.mk([P(1), P(2)], lookahead=2, workers=2, room=0, extra_client=slow, apps={1: {"cl": "larger"}}, name="undelimitable then plain la=2 slow"))
     out.append(cc.mk([P(1)], room=0, extra_client=[["readall"]], sndbuf=32, apps={1: {"chunks": [100]}}, adj={"send_bytes": 18000}, name="large send_bytes, small sndbuf, slow"))
     out.append(cc.mk([{"k": 1, "kind": "body"}], split="half", extra_client=[["close"]], name="body in halves then client close"))
